@@ -666,7 +666,10 @@ func drawMutatedCase(t *rapid.T) *tcase {
 func drawRawCase(t *rapid.T) *tcase {
 	c := &tcase{origin: "raw-bytes"}
 	imports := drawConfig(t, c)
-	switch pick(t, "rawk", 5, 3, 2) {
+	switch pick(t, "rawk", 5, 3, 2, 4) {
+	case 3:
+		c.origin = "lexical-edges"
+		c.src = []byte(lexicalEdge(func(label string, n int) int { return uni(t, label, n) }))
 	case 0:
 		c.src = rapid.SliceOfN(rapid.Byte(), 0, 64).Draw(t, "raw")
 	case 1:
@@ -683,6 +686,48 @@ func drawRawCase(t *rapid.T) *tcase {
 	}
 	finishConfig(t, c, imports)
 	return c
+}
+
+// ---------- lexical edges: comments and literals against CR, EOF and their own delimiters ----------
+
+var (
+	edgeOpeners = []string{"/*", "/*", "//", "`", "\"", "'"}
+	edgePieces  = []string{"*", "/", "\r", "\n", "\r\n", "a", "\\", " ", "\"", "`", "'", "*/", "/*", "\x00", "é", "\xff"}
+	edgeEnds    = []string{"", "", "*", "\r", "*\r", "\r\n", "*\r\n", "/", "\\", "*/", "\n", "\r*", "*\r/"}
+	edgePrefix  = []string{"", "", "a := 1\n", "a := 1 ", "x := [1,\n", "f(", "\r\n", "\xef\xbb\xbf", "a /", "a := `r`\r"}
+	edgeSuffix  = []string{"", "", "", "\nb := 2\n", " b", "\r", "\r\n\r"}
+)
+
+// lexicalEdge builds: prefix, an opener of a comment / raw string / string /
+// char literal, 0..5 body pieces, an ending that closes it properly, leaves it
+// open at EOF, or ends in the bytes the scanner special-cases (CR, a lone *, a
+// backslash), then possibly more source.
+func lexicalEdge(draw func(label string, n int) int) string {
+	var sb strings.Builder
+	sb.WriteString(edgePrefix[draw("edgePrefix", len(edgePrefix))])
+	open := edgeOpeners[draw("edgeOpen", len(edgeOpeners))]
+	sb.WriteString(open)
+	for i := draw("edgeN", 6); i > 0; i-- {
+		sb.WriteString(edgePieces[draw("edgePiece", len(edgePieces))])
+	}
+	switch draw("edgeClose", 3) {
+	case 0: // properly closed
+		switch open {
+		case "/*":
+			sb.WriteString("*/")
+		case "//":
+			sb.WriteString("\n")
+		default:
+			sb.WriteString(open)
+		}
+		sb.WriteString(edgeSuffix[draw("edgeSuffix", len(edgeSuffix))])
+	default:
+		sb.WriteString(edgeEnds[draw("edgeEnd", len(edgeEnds))])
+		if draw("edgeMore", 4) == 0 {
+			sb.WriteString(edgeSuffix[draw("edgeSuffix", len(edgeSuffix))])
+		}
+	}
+	return sb.String()
 }
 
 // ---------- hostile shapes: nesting, counts at the encoding limits ----------
@@ -822,6 +867,7 @@ func hostileConstants() []string {
 		"for { f := func() { break } }", "for x in [1] { func() { continue }() }", "for i := 0; i < 3; i++ { f := func() { for { break }; break } }",
 		"for a, b, c in x {}", "for a, b, c in [1] {}", "x := {}; for a, b, c, d in x { a = b }", "for a, b in x {}", "for in x {}", "for a in {}",
 		"\xef\xbb\xbfa := 1", "a := 1 \xef\xbb\xbf", "\x00", "a\x00b", "\xff", "a := \"abc", "a := `abc", "/* abc", "a /* \n */ b", "a // c\n b", "'", "'\\", "\"\\",
+		"/**\r", "/* *\r", "/*\r", "/* a *\r\n", "`\r", "`a\r", "\"\r", "'\r", "//\r", "a /* b *\r", "/*/", "/*", "/**", "/***/", "'\\", "\"\\\r",
 		"1e", "0x", "0b2", "1_", strings.Repeat("9", 400), "x := 1e400",
 		"import(\"\")", "import(\"m1\")", "m := import(\"m1\"); m2 := import(\"m1\")", "import(\"nosuch\")", "import(\"../../x\")", "x := import(\"fmt\")", "import(\"enum\").all([], func(k, v) { return v })",
 		"export 1", "export func() {}", "func() { export 1 }", "return", "return 1", "break", "continue", "a.b.c = 1", "a := 1; a := 2", "a, b := 1, 2", "a, b = 1", "a.b := 1", "1 = 2", "(a) = 1", "f() = 1",
